@@ -1012,6 +1012,29 @@ impl Harness {
         };
         let (resp, what) = match (mode, conf) {
             ("err", _) => (Err(Status::internal("verif: transient failure")), "error"),
+            // a response that must NOT count as a confirmation: non-zero result code (a failed
+            // transaction stores no blobs), no `tx_response`, negative height
+            ("code5", _) => (
+                Ok(GetTxResponse {
+                    tx: None,
+                    tx_response: Some(TxResponse {
+                        height: 77,
+                        txhash: hash.clone(),
+                        code: 5,
+                        raw_log: "out of gas".to_string(),
+                        ..TxResponse::default()
+                    }),
+                }),
+                "error",
+            ),
+            ("empty", _) => (
+                Ok(GetTxResponse {
+                    tx: None,
+                    tx_response: None,
+                }),
+                "error",
+            ),
+            ("negative", _) => (ok(-5), "error"),
             (_, Some(h)) => (ok(h as i64), "confirmed"),
             ("h0", None) => (ok(0), "pending"),
             (_, None) => (Err(Status::not_found("tx not found")), "unknown"),
@@ -1867,7 +1890,22 @@ fn random_session(r: &mut Runner, rng: &mut Rng, len: u32) {
                 "gettx" => {
                     sleeper = true;
                     let c = rng.below(100);
-                    format!("gettx {}", if c < 70 { "truth" } else if c < 90 { "h0" } else { "err" })
+                    format!(
+                        "gettx {}",
+                        if c < 66 {
+                            "truth"
+                        } else if c < 84 {
+                            "h0"
+                        } else if c < 90 {
+                            "err"
+                        } else if c < 94 {
+                            "code5"
+                        } else if c < 97 {
+                            "empty"
+                        } else {
+                            "negative"
+                        }
+                    )
                 }
                 "include" | "drop" => format!("{pick} t{}", rng.pick(&o.mempool)),
                 "bump" => format!("bump {}", rng.range(1, 3)),
